@@ -442,6 +442,13 @@ static bool has_flonum2(Type *ty) {
   return has_flonum(ty, 8, 16, 0);
 }
 
+// Count the GP and SSE registers that a struct or union of at most 16
+// bytes occupies: one register per eightbyte that exists.
+static void count_struct_regs(Type *ty, int *gp, int *fp) {
+  *fp = has_flonum1(ty) + (ty->size > 8 && has_flonum2(ty));
+  *gp = (ty->size > 8 ? 2 : 1) - *fp;
+}
+
 static void push_struct(Type *ty) {
   int sz = align_to(ty->size, 8);
   println("  sub $%d, %%rsp", sz);
@@ -520,12 +527,12 @@ static int push_args(Node *node) {
         arg->pass_by_stack = true;
         stack += align_to(ty->size, 8) / 8;
       } else {
-        bool fp1 = has_flonum1(ty);
-        bool fp2 = has_flonum2(ty);
+        int ngp, nfp;
+        count_struct_regs(ty, &ngp, &nfp);
 
-        if (fp + fp1 + fp2 < FP_MAX && gp + !fp1 + !fp2 < GP_MAX) {
-          fp = fp + fp1 + fp2;
-          gp = gp + !fp1 + !fp2;
+        if (fp + nfp <= FP_MAX && gp + ngp <= GP_MAX) {
+          fp += nfp;
+          gp += ngp;
         } else {
           arg->pass_by_stack = true;
           stack += align_to(ty->size, 8) / 8;
@@ -534,7 +541,9 @@ static int push_args(Node *node) {
       break;
     case TY_FLOAT:
     case TY_DOUBLE:
-      if (fp++ >= FP_MAX) {
+      if (fp < FP_MAX) {
+        fp++;
+      } else {
         arg->pass_by_stack = true;
         stack++;
       }
@@ -544,7 +553,9 @@ static int push_args(Node *node) {
       stack += 2;
       break;
     default:
-      if (gp++ >= GP_MAX) {
+      if (gp < GP_MAX) {
+        gp++;
+      } else {
         arg->pass_by_stack = true;
         stack++;
       }
@@ -912,8 +923,10 @@ static void gen_expr(Node *node) {
 
         bool fp1 = has_flonum1(ty);
         bool fp2 = has_flonum2(ty);
+        int ngp, nfp;
+        count_struct_regs(ty, &ngp, &nfp);
 
-        if (fp + fp1 + fp2 < FP_MAX && gp + !fp1 + !fp2 < GP_MAX) {
+        if (fp + nfp <= FP_MAX && gp + ngp <= GP_MAX) {
           if (fp1)
             popf(fp++);
           else
@@ -1338,25 +1351,29 @@ static void assign_lvar_offsets(Obj *prog) {
       case TY_STRUCT:
       case TY_UNION:
         if (ty->size <= 16) {
-          bool fp1 = has_flonum(ty, 0, 8, 0);
-          bool fp2 = has_flonum(ty, 8, 16, 8);
-          if (fp + fp1 + fp2 < FP_MAX && gp + !fp1 + !fp2 < GP_MAX) {
-            fp = fp + fp1 + fp2;
-            gp = gp + !fp1 + !fp2;
+          int ngp, nfp;
+          count_struct_regs(ty, &ngp, &nfp);
+          if (fp + nfp <= FP_MAX && gp + ngp <= GP_MAX) {
+            fp += nfp;
+            gp += ngp;
             continue;
           }
         }
         break;
       case TY_FLOAT:
       case TY_DOUBLE:
-        if (fp++ < FP_MAX)
+        if (fp < FP_MAX) {
+          fp++;
           continue;
+        }
         break;
       case TY_LDOUBLE:
         break;
       default:
-        if (gp++ < GP_MAX)
+        if (gp < GP_MAX) {
+          gp++;
           continue;
+        }
       }
 
       top = align_to(top, 8);
